@@ -223,6 +223,32 @@ Fixpoint discover (ws : list raw_segment) : list segment :=
   | w :: rest => discover_one w rest :: discover rest
   end.
 
+(* ---------- discovery cache / manifest cache (cachedLister, manifestLister) ----------
+   Both keep a copy (cloneSegments) of the last listing they obtained and hand out copies
+   of it until the TTL has elapsed; an empty cached listing counts as a miss; the
+   discovery cache does not store listings longer than MaxEntries (when > 0).
+   [fresh] is what the wrapped lister returns at the time of the call. *)
+Definition cache_state := option (list segment).
+
+Definition cache_call (enabled : bool) (max_entries : Z) (st : cache_state)
+           (expired : bool) (fresh : list segment) : list segment * cache_state :=
+  if negb enabled then (fresh, st) else
+  match st with
+  | Some (x :: l) => if expired then
+                       (fresh, if (0 <? max_entries) && (max_entries <? zlen fresh) then st else Some fresh)
+                     else (x :: l, st)
+  | _ => (fresh, if (0 <? max_entries) && (max_entries <? zlen fresh) then st else Some fresh)
+  end.
+
+(* a sequence of calls over an unchanged bucket *)
+Fixpoint cache_calls (enabled : bool) (max_entries : Z) (st : cache_state)
+         (fresh : list segment) (calls : list bool) : list (list segment) :=
+  match calls with
+  | [] => []
+  | e :: calls' => let '(l, st') := cache_call enabled max_entries st e fresh in
+                   l :: cache_calls enabled max_entries st' fresh calls'
+  end.
+
 (* ---------- vocabulary of the theorems ---------- *)
 
 Definition opt_le (o : option Z) (v : Z) : Prop := match o with Some m => m <= v | None => True end.
